@@ -1,3 +1,3 @@
-import TTModel.C01_Handle
-/-! C02 driver: the C01 request handler (C02 reuses the C01 model; see `TTModel/C01_Handle.lean`). -/
-def main : IO Unit := TT.Proto.mainLoop TT.C01.Drv.handle
+import TTModel.C02_Handle
+/-! C02 driver: C01's requests plus `rootings`, `reroot`, `likn` (see `TTModel/C02_Handle.lean`). -/
+def main : IO Unit := TT.Proto.mainLoop TT.C02.Drv.handle
